@@ -113,6 +113,10 @@ def check_C13(tier, seed, res, replay=None):
         if c["mode"] == "rt":
             return any(len(t[1]) >= 1 for t in c["desc"]["trans"])
         return True
+    for c in cases:
+        if rng.random() < 0.4:
+            c["preuse"] = True      # one parser / serialiser object per worker process, used again and again (also after malformed texts)
+    rng.shuffle(cases)              # valid and malformed texts interleave in every worker
     res.count_cases(cases, nt)
     res.add_samples([c for c in cases if c["mode"] == "rt" and nt(c)][:2] + [c for c in cases if c["mode"] == "bad"][:2])
     run_events(res, rd, "c13", cases, "TraceTimbuk.tla", timeout_ms=5000, heap="6g")
